@@ -11,6 +11,8 @@
             sub = -1 or the number of Notify calls before the subscribe call returns;
             late = number of Notify calls after it returned.  Further fields (which test
             method to call) are for the Go harness only.
+   probe  (8 n t): as (9 n t) but the request context carries its own deadline of t microseconds
+            (an external cancellation, thread TX of the model)
    probe  (9 n t): a batch of n trivial calls with ids 1..n under a timeout of t microseconds
             that may fire anywhere: observable projected to (number of responses, ids are 1..n)
 
@@ -122,7 +124,7 @@ Definition run_batch (c : cfg) (msgs : list msg) (fire : option nat) : sx :=
       if bfinal s then SL (enc_out (b_notifiers s) (b_out s)) else SErr 2
   end.
 
-Fixpoint sdrive (m : msg) (fuel : nat) (fire : option nat) (s : sstate) : sstate :=
+Fixpoint sdrive (c : cfg) (m : msg) (fuel : nat) (fire : option nat) (s : sstate) : sstate :=
   match fuel with
   | O => s
   | S f =>
@@ -131,17 +133,17 @@ Fixpoint sdrive (m : msg) (fuel : nat) (fire : option nat) (s : sstate) : sstate
         | Some _, SExec, TIdle => true
         | _, _, _ => false
         end in
-      if fire_now then sdrive m f fire (srun m [TT; TT] s)
+      if fire_now then sdrive c m f fire (srun c m [TT; TT] s)
       else match spstep m s with
-           | Some s' => sdrive m f fire s'
+           | Some s' => sdrive c m f fire s'
            | None => s
            end
   end.
 
 Definition run_single (c : cfg) (m : msg) (fire : option nat) : sx :=
   if handle_msg_dispatches m then
-    let s := sdrive m 20 fire (sinit c) in
-    let s := srun m (late_schedule 0 (s_notifiers s)) s in
+    let s := sdrive c m 20 fire (sinit c) in
+    let s := srun c m (late_schedule 0 (s_notifiers s)) s in
     if sfinal s then SL (enc_out (s_notifiers s) (s_out s)) else SErr 3
   else SL [].
 
@@ -177,7 +179,7 @@ Fixpoint ids_from (i : N) (rs : list resp) : bool :=
   end.
 
 Definition run_probe (n : nat) : sx :=
-  let c := mkCfg 0 0 0 true false in
+  let c := mkCfg 0 0 0 true false false false in
   let calls := probe_calls n [] in
   match handle_batch_front c calls with
   | FRun cs =>
@@ -193,10 +195,12 @@ Definition C49_run (c : sx) : sx :=
   match c with
   | SL [SI 9%Z; n; _] =>
       match sx_nat n with Some k => run_probe k | None => SErr 8 end
+  | SL [SI 8%Z; n; _] =>   (* same batch, request context with its own deadline *)
+      match sx_nat n with Some k => run_probe k | None => SErr 8 end
   | SL [mode; il; rl; isz; SL msgs] =>
       match sx_bool mode, sx_N il, sx_N rl, sx_N isz with
       | Some md, Some i, Some r, Some z =>
-          SL (map (run_message (mkCfg i r z md false)) msgs)
+          SL (map (run_message (mkCfg i r z md false false false)) msgs)
       | _, _, _, _ => SErr 1
       end
   | _ => SErr 0
